@@ -1,164 +1,135 @@
 /-
 C10 — Token: ERC20 and fee-token conversions neither create nor lose value.
 Headline theorems about the model `Irismod.Token`: `LossLessSwap` exactly as the code computes
-it (two rounding `Mul`s, `TruncateDec`, give-back, truncated burn), for every amount, every
-non-negative 18-decimal ratio and every pair of scales; the ERC20 conversions as ledger moves.
+it (floor of the output, ceiling of the input taken, over big integers), for every amount, every
+18-decimal ratio and every pair of scales; the ERC20 conversions as ledger moves.
 -/
 import Irismod.Proofs.TokenSwap
+import Irismod.Props.C09
 
 namespace Irismod.Props.C10
 open Irismod Irismod.Sdk Irismod.Token Irismod.Spec.C10 Irismod.Proofs.Token Irismod.Proofs.TokenSwap
 
-/-! ### 1. `LossLessSwap`: what holds for every ratio -/
+/-! ### 1. `LossLessSwap`: the value statement, in full -/
 
-/-- **C10(1a)** a swap never burns more than was offered -/
-theorem burned_le_offered (x q si so : Nat) (b m : Int)
-    (h : lossLess (x : Int) ⟨(q : Int)⟩ si so = some (b, m)) : b ≤ (x : Int) := by
-  obtain ⟨o, revN, _, hb, _⟩ := lossLess_char h
-  rw [hb]; exact burnOf_le x o revN
+/-- **C10(1a)** the minted amount is never worth more than the burned amount at the configured
+ratio and scales — `minted ≤ burned · ratio · 10^(so-si)` as an exact integer inequality — for
+every input, every ratio and every pair of scales -/
+theorem minted_le_burned_value (x : Int) (ratio : Dec) (si so : Nat) (b m : Int)
+    (h : lossLess x ratio si so = some (b, m)) : fullValue b m ratio.raw si so := by
+  unfold fullValue
+  rcases lossLess_char h with ⟨rfl, rfl, _⟩ | ⟨X, Q, _, hQ, _, hq, rfl, rfl⟩
+  · simp
+  · have hn : 0 < Q * 10 ^ so := Nat.mul_pos hQ (pow_pos10 _)
+    have key := le_takenN_mul (outN X (Q * 10 ^ so) (P * 10 ^ si)) (Q * 10 ^ so) (P * 10 ^ si) hn
+    have key' : ((outN X (Q * 10 ^ so) (P * 10 ^ si) : Nat) : Int) * ((P * 10 ^ si : Nat) : Int)
+        ≤ ((takenN (outN X (Q * 10 ^ so) (P * 10 ^ si)) (Q * 10 ^ so) (P * 10 ^ si) : Nat) : Int) * ((Q * 10 ^ so : Nat) : Int) := by
+      exact_mod_cast key
+    rw [hq, precision_eq]
+    simp only [pow10]
+    push_cast at key' ⊢
+    linarith
+
+/-- the full statement of the value clause -/
+def FullValue : Prop :=
+  ∀ (x : Int) (ratio : Dec) (si so : Nat) (b m : Int),
+    lossLess x ratio si so = some (b, m) → fullValue b m ratio.raw si so
+
+theorem full_value : FullValue := minted_le_burned_value
+
+/-- **C10(1b)** a swap never burns more than was offered, and never a negative amount -/
+theorem burned_le_offered (x : Int) (ratio : Dec) (si so : Nat) (b m : Int) (hx : 0 ≤ x)
+    (h : lossLess x ratio si so = some (b, m)) : 0 ≤ b ∧ b ≤ x := by
+  rcases lossLess_char h with ⟨rfl, rfl, _⟩ | ⟨X, Q, _, hQ, rfl, _, rfl, rfl⟩
+  · exact ⟨Int.le_refl _, hx⟩
+  · have hn : 0 < Q * 10 ^ so := Nat.mul_pos hQ (pow_pos10 _)
+    have := takenN_le X _ (Q * 10 ^ so) (P * 10 ^ si) hn (outN_mul_le X _ _)
+    exact ⟨Int.natCast_nonneg _, by exact_mod_cast this⟩
 
 /-- the minted amount is never negative -/
-theorem minted_nonneg (x q si so : Nat) (b m : Int)
-    (h : lossLess (x : Int) ⟨(q : Int)⟩ si so = some (b, m)) : 0 ≤ m := by
-  obtain ⟨o, revN, hm, _, _⟩ := lossLess_char h
-  rw [hm]; exact Int.natCast_nonneg _
+theorem minted_nonneg (x : Int) (ratio : Dec) (si so : Nat) (b m : Int)
+    (h : lossLess x ratio si so = some (b, m)) : 0 ≤ m := by
+  rcases lossLess_char h with ⟨rfl, rfl, _⟩ | ⟨X, Q, _, _, _, _, rfl, rfl⟩
+  · exact Int.le_refl _
+  · exact Int.natCast_nonneg _
 
 theorem pow10_split {a b : Nat} (h : b ≤ a) : pow10 a = 10 ^ (a - b) * pow10 b := by
   unfold pow10
   rw [← Nat.pow_add]
   congr 1; omega
 
-/-- **C10(1b)** the minted amount is worth at most what was *offered*, up to half a unit of the
-18th decimal (one rounding step): `minted ≤ offered · ratio · 10^(so-si) + ½·10^-18` -/
-theorem minted_le_offered_value (x q si so : Nat) (b m : Int)
-    (h : lossLess (x : Int) ⟨(q : Int)⟩ si so = some (b, m)) : offeredValue (x : Int) m (q : Int) si so := by
-  obtain ⟨o, revN, hm, _, hcase⟩ := lossLess_char h
-  unfold offeredValue within
-  rcases hcase with ⟨hle, hk, ho, _⟩ | ⟨hlt, hj, ho, _⟩
-  · have key := offered_down x q (si - so) hk
-    rw [← ho, ← hm] at key
-    rw [pow10_split hle]
-    have hs : (0 : Int) ≤ ((pow10 so : Nat) : Int) := by positivity
-    have := mul_le_mul_of_nonneg_right key hs
-    rw [precision_eq]
-    push_cast at this ⊢
-    linarith
-  · have key := offered_up x q (so - si)
-    rw [← ho, ← hm] at key
-    rw [pow10_split (Nat.le_of_lt hlt)]
-    have hs : (0 : Int) ≤ ((pow10 si : Nat) : Int) := by positivity
-    have := mul_le_mul_of_nonneg_right key hs
-    rw [precision_eq]
-    push_cast at this ⊢
-    linarith
-
-/-! ### 2. Exactness at ratio 1 -/
+/-! ### 2. Exactness at ratio 1; the dust stays with the sender -/
 
 /-- **C10(2)** at ratio 1 the swap is exact — `burned · 10^so = minted · 10^si` — and what is not
-converted (the dust, less than `10^(si-so)` min units) stays with the sender -/
-theorem exact_at_ratio_one (x si so : Nat) (b m : Int)
-    (h : lossLess (x : Int) ⟨precision⟩ si so = some (b, m)) :
-    exactAtOne b m si so ∧ 0 ≤ b ∧ b ≤ (x : Int) ∧ (x : Int) - b < ((10 ^ (si - so) : Nat) : Int) := by
-  have h' : lossLess (x : Int) ⟨((P : Nat) : Int)⟩ si so = some (b, m) := h
-  obtain ⟨o, revN, hm, hb, hcase⟩ := lossLess_char h'
-  unfold exactAtOne
-  rcases hcase with ⟨hle, hk, ho, hr⟩ | ⟨hlt, hj, ho, hr⟩
-  · obtain ⟨e1, e2⟩ := one_down x (si - so) hk
-    rw [← ho] at e1 e2
-    rw [hr] at hb
-    rw [hb, e2, hm, e1, pow10_split hle]
-    have hmod : x % 10 ^ (si - so) < 10 ^ (si - so) := Nat.mod_lt _ (pow_pos10 _)
-    have hle' : x % 10 ^ (si - so) ≤ x := Nat.mod_le _ _
-    have hdm := Nat.div_add_mod x (10 ^ (si - so))
-    refine ⟨?_, by positivity, by omega, by omega⟩
-    have : x - x % 10 ^ (si - so) = x / 10 ^ (si - so) * 10 ^ (si - so) := by
-      have h3 : 10 ^ (si - so) * (x / 10 ^ (si - so)) = x / 10 ^ (si - so) * 10 ^ (si - so) := Nat.mul_comm _ _
+converted (the dust, less than `10^(si-so)` min units) is not taken from the sender -/
+theorem exact_at_ratio_one (x : Int) (si so : Nat) (b m : Int) (hx : 0 ≤ x)
+    (h : lossLess x ⟨precision⟩ si so = some (b, m)) :
+    exactAtOne b m si so ∧ 0 ≤ b ∧ b ≤ x ∧ x - b < ((10 ^ (si - so) : Nat) : Int) := by
+  have hbx := burned_le_offered x ⟨precision⟩ si so b m hx h
+  refine ⟨?_, hbx.1, hbx.2, ?_⟩
+  · unfold exactAtOne
+    rcases lossLess_char h with ⟨rfl, rfl, _⟩ | ⟨X, Q, _, _, rfl, hq, rfl, rfl⟩
+    · simp
+    · have hQP : Q = P := by
+        have : (Q : Int) = (P : Int) := by rw [← hq]; rfl
+        exact_mod_cast this
+      subst hQP
+      by_cases hle : si ≤ so
+      · obtain ⟨e1, e2⟩ := one_up X si so hle
+        rw [e2, e1, pow10_split hle]
+        simp only [pow10]; push_cast; ring
+      · have hle' : so ≤ si := by omega
+        obtain ⟨e1, e2⟩ := one_down X si so hle'
+        rw [e2, e1, pow10_split hle']
+        simp only [pow10]; push_cast; ring
+  · rcases lossLess_char h with ⟨rfl, rfl, hz⟩ | ⟨X, Q, _, _, rfl, hq, rfl, rfl⟩
+    · have hp : ¬ (precision ≤ 0) := by decide
+      have : x = 0 := by
+        rcases hz with hz | hz
+        · omega
+        · exact absurd hz hp
+      subst this
+      have : (0 : Int) < ((10 ^ (si - so) : Nat) : Int) := by positivity
       omega
-    rw [this]
-    push_cast; ring
-  · obtain ⟨e1, e2⟩ := one_up x (so - si)
-    rw [ho] at hm hb
-    rw [hr] at hb
-    rw [hb, e1, hm, e2, pow10_split (Nat.le_of_lt hlt)]
-    have : (0 : Int) < ((10 ^ (si - so) : Nat) : Int) := by positivity
-    refine ⟨?_, by positivity, Int.le_refl _, by omega⟩
-    push_cast; ring
+    · have hQP : Q = P := by
+        have : (Q : Int) = (P : Int) := by rw [← hq]; rfl
+        exact_mod_cast this
+      subst hQP
+      by_cases hle : si ≤ so
+      · obtain ⟨_, e2⟩ := one_up X si so hle
+        rw [e2]
+        have : (0 : Int) < ((10 ^ (si - so) : Nat) : Int) := by positivity
+        omega
+      · have hle' : so ≤ si := by omega
+        obtain ⟨_, e2⟩ := one_down X si so hle'
+        rw [e2]
+        have hmod := Nat.mod_lt X (pow_pos10 (si - so))
+        have hdm := Nat.div_add_mod X (10 ^ (si - so))
+        have h3 : 10 ^ (si - so) * (X / 10 ^ (si - so)) = X / 10 ^ (si - so) * 10 ^ (si - so) := Nat.mul_comm _ _
+        have : X - X / 10 ^ (si - so) * 10 ^ (si - so) < 10 ^ (si - so) := by omega
+        have hle2 : X / 10 ^ (si - so) * 10 ^ (si - so) ≤ X := Nat.div_mul_le_self _ _
+        have : ((X : Int) - ((X / 10 ^ (si - so) * 10 ^ (si - so) : Nat) : Int)) = ((X - X / 10 ^ (si - so) * 10 ^ (si - so) : Nat) : Int) := by
+          rw [Nat.cast_sub hle2]
+        rw [this]
+        exact_mod_cast ‹X - X / 10 ^ (si - so) * 10 ^ (si - so) < 10 ^ (si - so)›
 
-/-! ### 3. The full value statement is false of the code; what is true instead -/
+/-! ### 3. Regression examples: the inputs of the former findings F-tok-2 / F-tok-3 / F-tok-4 -/
 
-/-- the full statement: the minted amount is worth at most the burned amount at the
-configured ratio and scales -/
-def FullValue : Prop :=
-  ∀ (x q si so : Nat) (b m : Int), 0 < q → si ≤ 18 → so ≤ 18 →
-    lossLess (x : Int) ⟨(q : Int)⟩ si so = some (b, m) → fullValue b m (q : Int) si so
+/-- formerly `(3, 1)` (a unit minted for 0.9999999999999999999): now nothing is taken or minted -/
+theorem former_rounding_witness : lossLess 3 ⟨3333333333333333333⟩ 1 0 = some (0, 0) := by decide +kernel
 
-/-- **F-tok-2** one rounding step carries the product across an integer:
-`LossLessSwap(3, 3.333333333333333333, 1, 0) = (3, 1)` although `0.3 × 3.333333333333333333 < 1` -/
-theorem rounding_witness :
-    lossLess 3 ⟨3333333333333333333⟩ 1 0 = some (3, 1) ∧ ¬ fullValue 3 1 3333333333333333333 1 0 ∧
-    valueClass 3 1 3333333333333333333 1 0 = "F-tok-2" := by
+/-- formerly `(0, 1)`, `(2, 4)`, `(6, 10)` at ratio 1.5: now the input worth the output is taken -/
+theorem former_ratio_above_one_witness :
+    lossLess 1 ⟨1500000000000000000⟩ 0 0 = some (1, 1) ∧ lossLess 3 ⟨1500000000000000000⟩ 0 0 = some (3, 4) ∧
+    lossLess 7 ⟨1500000000000000000⟩ 0 0 = some (7, 10) := by decide +kernel
+
+/-- formerly a negative burn `(-499, 1)` -/
+theorem former_negative_burn_witness : lossLess 1 ⟨1500500000000000000000⟩ 3 0 = some (1, 1) := by
   decide +kernel
 
-/-- **F-tok-3** for a ratio above 1 the give-back ignores the ratio:
-ratio 1.5, equal scales: `1 ↦ (burn 0, mint 1)`, `3 ↦ (2, 4)`, `7 ↦ (6, 10)` -/
-theorem ratio_above_one_witness :
-    lossLess 1 ⟨1500000000000000000⟩ 0 0 = some (0, 1) ∧ lossLess 3 ⟨1500000000000000000⟩ 0 0 = some (2, 4) ∧
-    lossLess 7 ⟨1500000000000000000⟩ 0 0 = some (6, 10) ∧ ¬ fullValue 0 1 1500000000000000000 0 0 ∧
-    valueClass 0 1 1500000000000000000 0 0 = "F-tok-3" := by
+/-- formerly `(2, 2)` at ratio 0.7 (2 is worth 1.4): now 3 is taken for 2 -/
+theorem former_truncated_burn_witness : lossLess 3 ⟨700000000000000000⟩ 0 0 = some (3, 2) := by
   decide +kernel
-
-/-- … and the burned amount can even be negative: `LossLessSwap(1, 1500.5, 3, 0) = (-499, 1)` -/
-theorem negative_burn_witness : lossLess 1 ⟨1500500000000000000000⟩ 3 0 = some (-499, 1) := by
-  decide +kernel
-
-/-- **F-tok-4** the burn is truncated (rounded in the sender's favour), so below ratio 1 up to one
-min unit escapes: `LossLessSwap(3, 0.7, 0, 0) = (2, 2)` although 2 is worth 1.4 -/
-theorem truncated_burn_witness :
-    lossLess 3 ⟨700000000000000000⟩ 0 0 = some (2, 2) ∧ ¬ fullValue 2 2 700000000000000000 0 0 ∧
-    valueClass 2 2 700000000000000000 0 0 = "F-tok-4" := by
-  decide +kernel
-
-theorem not_FullValue : ¬ FullValue := by
-  intro hall
-  exact rounding_witness.2.1 (hall 3 3333333333333333333 1 0 3 1 (by decide) (by decide) (by decide) rounding_witness.1)
-
-/-- **C10(3)** the strongest true form for ratios up to 1: the minted amount is worth at most
-the burned amount **plus one input min unit**, up to half a unit of the last decimal kept -/
-theorem value_partial_ratio_le_one (x q si so : Nat) (b m : Int) (hq : (q : Int) ≤ precision)
-    (h : lossLess (x : Int) ⟨(q : Int)⟩ si so = some (b, m)) : nearValue b m (q : Int) si so := by
-  have hq' : q ≤ P := by rw [precision_eq] at hq; exact_mod_cast hq
-  obtain ⟨o, revN, hm, hb, hcase⟩ := lossLess_char h
-  unfold nearValue within
-  rcases hcase with ⟨hle, hk, ho, hr⟩ | ⟨hlt, hj, ho, hr⟩
-  · have key := near_down x q (si - so) hk hq'
-    rw [← ho, ← hr, ← hb, ← hm] at key
-    rw [Nat.max_eq_left hle, pow10_split hle]
-    have hs : (0 : Int) ≤ ((pow10 so : Nat) : Int) := by positivity
-    have := mul_le_mul_of_nonneg_right key hs
-    rw [precision_eq]
-    push_cast at this ⊢
-    linarith
-  · have key := near_up x q (so - si) hj hq'
-    rw [← ho, ← hr, ← hb, ← hm] at key
-    rw [Nat.max_eq_right (Nat.le_of_lt hlt), pow10_split (Nat.le_of_lt hlt)]
-    have hs : (0 : Int) ≤ ((pow10 si : Nat) : Int) := by positivity
-    have := mul_le_mul_of_nonneg_right key hs
-    rw [precision_eq]
-    push_cast at this ⊢
-    linarith
-
-/-- every violation of the full statement lies in the class of a recorded finding: the monitor's
-classification never leaves one unclassified -/
-theorem violations_are_classified (x q si so : Nat) (b m : Int)
-    (h : lossLess (x : Int) ⟨(q : Int)⟩ si so = some (b, m)) : valueClass b m (q : Int) si so ≠ "" := by
-  unfold valueClass
-  split
-  · decide
-  · split
-    · decide
-    · rename_i _ hq
-      have hq' : (q : Int) ≤ precision := by omega
-      simp [value_partial_ratio_le_one x q si so b m hq' h]
 
 /-! ### 4. The bank stays sound: balances never add up to more than the supply -/
 
@@ -373,5 +344,383 @@ theorem swap_fee_exact (s s' : State) (sender rcv denom : String) (amount : Int)
     omega
   · rw [supplyOf_mint_other _ _ _ _ _ (Ne.symm hne)]; exact e3
   · rw [supplyOf_mint_self, e5 target hne]
+
+open Irismod.Spec.C09 (WF)
+
+/-! ### 7. Histories of conversions: native + ERC20 supply of every bound token is constant -/
+
+/-- the contract index and the token table agree (what `DeployERC20` establishes) -/
+def Bound (s : State) : Prop :=
+  (∀ sym t, AMap.get? s.tokens sym = some t → t.contract ≠ 0 → AMap.get? s.contracts t.contract = some sym) ∧
+  (∀ c sym, AMap.get? s.contracts c = some sym → ∃ t, AMap.get? s.tokens sym = some t ∧ t.contract = c)
+
+/-- the conversion operations (both directions, the hook, and the contract's fault switch) -/
+def isConversion : Op → Bool
+  | .swapToErc20 .. => true
+  | .swapFromErc20 .. => true
+  | .hookSwap .. => true
+  | .evmFault .. => true
+  | _ => false
+
+/-- native supply of `m` plus ERC20 supply of contract `c` -/
+def combined (s : State) (m : String) (c : Nat) : Nat := supplyOf s m + evmTotal s c
+
+/-- one accepted conversion: tables unchanged, and the combined supply of every bound token unchanged -/
+theorem conversion_step (s s' : State) (op : Op) (hwf : WF s) (hb : Bound s) (hsound : Sound s.bank)
+    (hop : isConversion op = true) (hs : step s op = .ok s') :
+    s'.tokens = s.tokens ∧ s'.minUnits = s.minUnits ∧ s'.contracts = s.contracts ∧
+    ∀ sym t, AMap.get? s.tokens sym = some t → t.contract ≠ 0 →
+      combined s' t.minUnit t.contract = combined s t.minUnit t.contract := by
+  cases op with
+  | swapToErc20 sender receiver denom amount =>
+    have hs' := hs
+    obtain ⟨_, _, t0, b, ht0, _, _, rfl⟩ := swapTo_ok hs'
+    obtain ⟨t1, ht1, hc1, _, _, e2, _, e4, _, e6, _, e8, _⟩ := swap_to_erc20_exact s _ sender receiver denom amount hsound hs
+    rw [ht0] at ht1; cases ht1
+    refine ⟨rfl, rfl, rfl, ?_⟩
+    intro sym t ht hc
+    obtain ⟨emu, etok, _⟩ := Props.C09.tokenByMinUnit_wf hwf ht0
+    unfold combined
+    by_cases hk : t0.symbol = sym
+    · subst hk; rw [etok] at ht; cases ht
+      rw [emu]; exact e4
+    · have hm : denom ≠ t.minUnit := by
+        intro e
+        exact hk (Props.C09.minUnit_identifies_one_token hwf etok ht (by rw [emu, e])).1
+      have hcc : t0.contract ≠ t.contract := by
+        intro e
+        have a := hb.1 t0.symbol t0 etok hc1
+        have b' := hb.1 sym t ht hc
+        rw [e, b'] at a; cases a; exact hk rfl
+      rw [e6 _ hm, e8 _ hcc]
+  | swapFromErc20 sender receiver denom amount =>
+    have hs' := hs
+    obtain ⟨_, _, _, t0, ht0, _, _, rfl⟩ := swapFrom_ok hs'
+    obtain ⟨t1, ht1, hc1, _, _, _, _, _, e4, _, e6, _, e8, _⟩ := swap_from_erc20_exact s _ sender receiver denom amount hs
+    rw [ht0] at ht1; cases ht1
+    refine ⟨rfl, rfl, rfl, ?_⟩
+    intro sym t ht hc
+    obtain ⟨emu, etok, _⟩ := Props.C09.tokenByMinUnit_wf hwf ht0
+    unfold combined
+    by_cases hk : t0.symbol = sym
+    · subst hk; rw [etok] at ht; cases ht
+      rw [emu]; exact e4
+    · have hm : denom ≠ t.minUnit := by
+        intro e
+        exact hk (Props.C09.minUnit_identifies_one_token hwf etok ht (by rw [emu, e])).1
+      have hcc : t0.contract ≠ t.contract := by
+        intro e
+        have a := hb.1 t0.symbol t0 etok hc1
+        have b' := hb.1 sym t ht hc
+        rw [e, b'] at a; cases a; exact hk rfl
+      rw [e6 _ hm, e8 _ hcc]
+  | hookSwap src c rcv amount =>
+    obtain ⟨_, _, h3⟩ := hook_ok hs
+    rcases h3 with ⟨rfl, hnone⟩ | ⟨sym0, t0, hc0, ht0, _, _, rfl⟩
+    · refine ⟨rfl, rfl, rfl, ?_⟩
+      intro sym t ht hc
+      have hcc : c ≠ t.contract := by
+        intro e
+        rw [e, hb.1 sym t ht hc] at hnone
+        simp [ht] at hnone
+      unfold combined
+      have := evmTotal_set_other s c src (evmBal s c src - amount.toNat) s.bank t.contract hcc
+      simp only [supplyOf] at this ⊢
+      exact congrArg (s.bank.supplyOf t.minUnit + ·) this
+    · refine ⟨rfl, rfl, rfl, ?_⟩
+      obtain ⟨_, _, _, _, _, e4, _, _, _⟩ := hook_swap_exact s _ src c rcv amount sym0 t0 hc0 ht0 hs
+      obtain ⟨t0', ht0', hc0'⟩ := hb.2 c sym0 hc0
+      rw [ht0] at ht0'; cases ht0'
+      intro sym t ht hc
+      unfold combined
+      by_cases hk : sym0 = sym
+      · subst hk; rw [ht0] at ht; cases ht
+        rw [hc0']; exact e4
+      · have hm : t0.minUnit ≠ t.minUnit := by
+          intro e
+          exact hk (Props.C09.minUnit_identifies_one_token hwf ht0 ht e).1
+        have hcc : c ≠ t.contract := by
+          intro e
+          have b' := hb.1 sym t ht hc
+          rw [← e, hc0] at b'; cases b'; exact hk rfl
+        have h1 := evmTotal_set_other s c src (evmBal s c src - amount.toNat)
+          (s.bank.mint rcv t0.minUnit amount.toNat) t.contract hcc
+        simp only [supplyOf]
+        rw [h1, supplyOf_mint_other _ _ _ _ _ hm]
+  | evmFault mode =>
+    rw [evmFault_ok hs]
+    exact ⟨rfl, rfl, rfl, fun _ _ _ _ => rfl⟩
+  | issue _ _ _ _ _ _ _ _ => cases hop
+  | edit _ _ _ _ _ => cases hop
+  | mint _ _ _ _ => cases hop
+  | burn _ _ _ => cases hop
+  | transferOwner _ _ _ => cases hop
+  | swapFee _ _ _ _ => cases hop
+  | deploy _ _ _ _ _ => cases hop
+  | updateParams _ _ => cases hop
+
+/-- **C10(7)** over every sequence mixing conversions in both directions, hook calls, contract
+faults and failed attempts: for every token bound to a contract, native supply + ERC20 supply
+is what it was at the start -/
+theorem conversions_conserve (s : State) (ops : List Op) (hwf : WF s) (hb : Bound s) (hsound : Sound s.bank)
+    (hops : ∀ op ∈ ops, isConversion op = true) (sym : String) (t : Token)
+    (ht : AMap.get? s.tokens sym = some t) (hc : t.contract ≠ 0) :
+    combined (run s ops) t.minUnit t.contract = combined s t.minUnit t.contract := by
+  induction ops generalizing s with
+  | nil => rfl
+  | cons op rest ih =>
+    show combined (run (apply s op) rest) t.minUnit t.contract = _
+    unfold apply
+    cases hs : step s op with
+    | error e => exact ih s hwf hb hsound (fun o ho => hops o (List.mem_cons_of_mem _ ho)) ht
+    | ok s' =>
+      obtain ⟨e1, e2, e3, e4⟩ := conversion_step s s' op hwf hb hsound (hops op (List.mem_cons_self ..)) hs
+      have hwf' : WF s' := Props.C09.wf_of_lookups hwf (fun _ => by rw [e1]) (fun _ => by rw [e2])
+      have hb' : Bound s' := by
+        constructor
+        · intro sym2 t2 ht2 hc2; rw [e1] at ht2; rw [e3]; exact hb.1 sym2 t2 ht2 hc2
+        · intro c sym2 hcs; rw [e3] at hcs; rw [e1]; exact hb.2 c sym2 hcs
+      simp only
+      rw [ih s' hwf' hb' (sound_step s s' op hsound hs) (fun o ho => hops o (List.mem_cons_of_mem _ ho)) (by rw [e1]; exact ht)]
+      exact e4 sym t ht hc
+
+
+/-! ### 8. The contract binding is established by deployment and kept by every operation -/
+
+/-- the binding invariant: the contract index and the token table agree, contracts are the ones
+the module account created (`1 ≤ c ≤ nonce`) -/
+structure BoundInv (s : State) : Prop where
+  wf    : WF s
+  bound : Bound s
+  fresh : ∀ sym t, AMap.get? s.tokens sym = some t → t.contract ≤ s.nonce
+  pos   : ∀ c sym, AMap.get? s.contracts c = some sym → c ≠ 0
+
+theorem boundinv_of_same {s s' : State} (h : BoundInv s) (hwf' : WF s') (e1 : s'.tokens = s.tokens)
+    (e3 : s'.contracts = s.contracts) (e4 : s'.nonce = s.nonce) : BoundInv s' where
+  wf := hwf'
+  bound := by
+    constructor
+    · intro sym t ht hc; rw [e1] at ht; rw [e3]; exact h.bound.1 sym t ht hc
+    · intro c sym hcs; rw [e3] at hcs; rw [e1]; exact h.bound.2 c sym hcs
+  fresh := by intro sym t ht; rw [e1] at ht; rw [e4]; exact h.fresh sym t ht
+  pos := by intro c sym hcs; rw [e3] at hcs; exact h.pos c sym hcs
+
+/-- replacing a token by one with the same contract -/
+theorem boundinv_modify {s s' : State} {sym : String} {t t' : Token} (h : BoundInv s) (hwf' : WF s')
+    (ht : AMap.get? s.tokens sym = some t) (hc : t'.contract = t.contract)
+    (e1 : s'.tokens = AMap.set s.tokens sym t') (e3 : s'.contracts = s.contracts) (e4 : s'.nonce = s.nonce) :
+    BoundInv s' where
+  wf := hwf'
+  bound := by
+    constructor
+    · intro sym2 t2 ht2 hc2
+      rw [e1, get?_set] at ht2
+      rw [e3]
+      by_cases hk : sym = sym2
+      · subst hk
+        simp only [if_true, Option.some.injEq] at ht2
+        subst ht2
+        rw [hc] at hc2 ⊢
+        exact h.bound.1 sym t ht hc2
+      · simp only [hk, if_false] at ht2
+        exact h.bound.1 sym2 t2 ht2 hc2
+    · intro c sym2 hcs
+      rw [e3] at hcs
+      obtain ⟨t2, ht2, hc2⟩ := h.bound.2 c sym2 hcs
+      rw [e1, get?_set]
+      by_cases hk : sym = sym2
+      · subst hk
+        rw [ht] at ht2; cases ht2
+        exact ⟨t', by simp, by rw [hc]; exact hc2⟩
+      · exact ⟨t2, by simp [hk, ht2], hc2⟩
+  fresh := by
+    intro sym2 t2 ht2
+    rw [e1, get?_set] at ht2
+    rw [e4]
+    by_cases hk : sym = sym2
+    · subst hk
+      simp only [if_true, Option.some.injEq] at ht2
+      subst ht2
+      rw [hc]; exact h.fresh sym t ht
+    · simp only [hk, if_false] at ht2
+      exact h.fresh sym2 t2 ht2
+  pos := by intro c sym2 hcs; rw [e3] at hcs; exact h.pos c sym2 hcs
+
+/-- adding an unbound token under a new symbol -/
+theorem boundinv_add {s s' : State} {sym : String} {t : Token} (h : BoundInv s) (hwf' : WF s')
+    (hn : AMap.get? s.tokens sym = none) (hc : t.contract = 0)
+    (e1 : s'.tokens = AMap.set s.tokens sym t) (e3 : s'.contracts = s.contracts) (e4 : s'.nonce = s.nonce) :
+    BoundInv s' where
+  wf := hwf'
+  bound := by
+    constructor
+    · intro sym2 t2 ht2 hc2
+      rw [e1, get?_set] at ht2
+      rw [e3]
+      by_cases hk : sym = sym2
+      · subst hk
+        simp only [if_true, Option.some.injEq] at ht2
+        subst ht2
+        exact absurd hc hc2
+      · simp only [hk, if_false] at ht2
+        exact h.bound.1 sym2 t2 ht2 hc2
+    · intro c sym2 hcs
+      rw [e3] at hcs
+      obtain ⟨t2, ht2, hc2⟩ := h.bound.2 c sym2 hcs
+      have hk : sym ≠ sym2 := by intro e; rw [e, ht2] at hn; cases hn
+      exact ⟨t2, by rw [e1, get?_set]; simp [hk, ht2], hc2⟩
+  fresh := by
+    intro sym2 t2 ht2
+    rw [e1, get?_set] at ht2
+    rw [e4]
+    by_cases hk : sym = sym2
+    · subst hk
+      simp only [if_true, Option.some.injEq] at ht2
+      subst ht2
+      rw [hc]; exact Nat.zero_le _
+    · simp only [hk, if_false] at ht2
+      exact h.fresh sym2 t2 ht2
+  pos := by intro c sym2 hcs; rw [e3] at hcs; exact h.pos c sym2 hcs
+
+/-- deployment binds the fresh contract `nonce + 1` to a token that had none -/
+theorem boundinv_deploy {s s' : State} {t : Token} (h : BoundInv s) (hwf' : WF s')
+    (hcase : AMap.get? s.tokens t.symbol = some t ∨ AMap.get? s.tokens t.symbol = none) (hc : t.contract = 0)
+    (e1 : s'.tokens = AMap.set s.tokens t.symbol { t with contract := s.nonce + 1 })
+    (e3 : s'.contracts = AMap.set s.contracts (s.nonce + 1) t.symbol) (e4 : s'.nonce = s.nonce + 1) :
+    BoundInv s' where
+  wf := hwf'
+  bound := by
+    constructor
+    · intro sym2 t2 ht2 hc2
+      rw [e1, get?_set] at ht2
+      rw [e3, get?_set]
+      by_cases hk : t.symbol = sym2
+      · subst hk
+        simp only [if_true, Option.some.injEq] at ht2
+        subst ht2
+        simp
+      · simp only [hk, if_false] at ht2
+        have := h.fresh sym2 t2 ht2
+        have hne : s.nonce + 1 ≠ t2.contract := by omega
+        simp only [hne, if_false]
+        exact h.bound.1 sym2 t2 ht2 hc2
+    · intro c sym2 hcs
+      rw [e3, get?_set] at hcs
+      rw [e1]
+      by_cases hk : s.nonce + 1 = c
+      · simp only [hk, if_true, Option.some.injEq] at hcs
+        subst hcs
+        exact ⟨{ t with contract := s.nonce + 1 }, by rw [get?_set]; simp, hk⟩
+      · simp only [hk, if_false] at hcs
+        obtain ⟨t2, ht2, hc2⟩ := h.bound.2 c sym2 hcs
+        have hne : t.symbol ≠ sym2 := by
+          intro e
+          rcases hcase with hsome | hnone
+          · rw [e, ht2] at hsome; cases hsome
+            exact h.pos c sym2 hcs (by rw [← hc2, hc])
+          · rw [e, ht2] at hnone; cases hnone
+        exact ⟨t2, by rw [get?_set]; simp [hne, ht2], hc2⟩
+  fresh := by
+    intro sym2 t2 ht2
+    rw [e1, get?_set] at ht2
+    rw [e4]
+    by_cases hk : t.symbol = sym2
+    · simp only [hk, if_true, Option.some.injEq] at ht2
+      subst ht2
+      exact Nat.le_refl _
+    · simp only [hk, if_false] at ht2
+      have := h.fresh sym2 t2 ht2
+      omega
+  pos := by
+    intro c sym2 hcs
+    rw [e3, get?_set] at hcs
+    by_cases hk : s.nonce + 1 = c
+    · omega
+    · simp only [hk, if_false] at hcs
+      exact h.pos c sym2 hcs
+
+/-- **C10(8a)** every accepted operation of the module keeps the binding invariant -/
+theorem boundinv_step (s s' : State) (op : Op) (h : BoundInv s) (hs : step s op = .ok s') : BoundInv s' := by
+  have hwf' := Props.C09.wf_step s s' op h.wf hs
+  cases op with
+  | issue owner symbol name minUnit scale init max mintable =>
+    obtain ⟨_, _, s1, h1, hc1, _, rfl⟩ := issue_ok hs
+    obtain ⟨_, _, _, _, _, _, _, rfl⟩ := deductFee_ok h1
+    exact boundinv_add (t := issuedToken owner symbol name minUnit scale init max mintable) h hwf'
+      (contains_false hc1) rfl rfl rfl rfl
+  | edit owner symbol name max mintable =>
+    obtain ⟨t, ht, _, _, rfl⟩ := edit_ok hs
+    exact boundinv_modify (t' := edited t name max mintable) h hwf' ht rfl rfl rfl rfl
+  | mint owner rcv denom amount =>
+    obtain ⟨_, _, sym, s1, _, h1, h2⟩ := mint_ok hs
+    obtain ⟨_, _, _, _, _, _, _, rfl⟩ := deductFee_ok h1
+    obtain ⟨_, _, _, _, _, rfl⟩ := mintChecked_ok h2
+    exact boundinv_of_same h hwf' rfl rfl rfl
+  | burn sender denom amount =>
+    obtain ⟨_, _, b, _, rfl⟩ := burn_step_ok hs
+    exact boundinv_of_same h hwf' rfl rfl rfl
+  | transferOwner src dst symbol =>
+    obtain ⟨_, t, ht, _, rfl⟩ := transferOwner_ok hs
+    exact boundinv_modify (t' := { t with owner := dst }) h hwf' ht rfl rfl rfl rfl
+  | swapFee sender rcv denom amount =>
+    obtain ⟨_, tb, target, ratio, tm, b, m, _, _, _, _, h2⟩ := swapFee_ok hs
+    obtain ⟨_, _, _, bk, _, rfl⟩ := swapMoves_ok h2
+    exact boundinv_of_same h hwf' rfl rfl rfl
+  | deploy authority name symbol minUnit scale =>
+    obtain ⟨t, hb, hc, rfl⟩ := deploy_ok hs
+    have hcase : AMap.get? s.tokens t.symbol = some t ∨ AMap.get? s.tokens t.symbol = none := by
+      rcases Props.C09.buildErc20_cases h.wf hb with ⟨e1, _⟩ | ⟨e1, _, _, _, _⟩
+      · exact Or.inl e1
+      · exact Or.inr e1
+    exact boundinv_deploy h hwf' hcase hc rfl rfl rfl
+  | swapToErc20 sender receiver denom amount =>
+    obtain ⟨_, _, t, b, _, _, _, rfl⟩ := swapTo_ok hs
+    exact boundinv_of_same h hwf' rfl rfl rfl
+  | swapFromErc20 sender receiver denom amount =>
+    obtain ⟨_, _, _, t, _, _, _, rfl⟩ := swapFrom_ok hs
+    exact boundinv_of_same h hwf' rfl rfl rfl
+  | hookSwap src c rcv amount =>
+    obtain ⟨_, _, h3⟩ := hook_ok hs
+    rcases h3 with ⟨rfl, _⟩ | ⟨sym, t, _, _, _, _, rfl⟩
+    · exact boundinv_of_same h hwf' rfl rfl rfl
+    · exact boundinv_of_same h hwf' rfl rfl rfl
+  | evmFault mode =>
+    have e := evmFault_ok hs
+    subst e
+    exact boundinv_of_same h hwf' rfl rfl rfl
+  | updateParams authority p =>
+    have e := (updateParams_ok hs).2
+    subst e
+    exact boundinv_of_same h hwf' rfl rfl rfl
+
+theorem boundinv_genesis (bank : Bank) (p : Params) (env : Env) : BoundInv (genesis bank p env) where
+  wf := Props.C09.wf_genesis bank p env
+  bound := by
+    constructor
+    · intro sym t ht hc
+      simp only [genesis, AMap.get?] at ht
+      split at ht
+      · cases ht; exact absurd rfl hc
+      · cases ht
+    · intro c sym hcs; simp [genesis] at hcs
+  fresh := by
+    intro sym t ht
+    simp only [genesis, AMap.get?] at ht
+    split at ht
+    · cases ht; exact Nat.le_refl _
+    · cases ht
+  pos := by intro c sym hcs; simp [genesis] at hcs
+
+/-- **C10(8b)** in every state reachable from genesis by any history the binding invariant holds,
+so `conversions_conserve` applies from there -/
+theorem boundinv_run (s : State) (ops : List Op) (h : BoundInv s) : BoundInv (run s ops) := by
+  induction ops generalizing s with
+  | nil => exact h
+  | cons op rest ih =>
+    apply ih
+    unfold apply
+    cases hs : step s op with
+    | ok s' => exact boundinv_step s s' op h hs
+    | error e => exact h
 
 end Irismod.Props.C10
